@@ -117,17 +117,31 @@ func (tree *Tree[T]) Add(pattern string, h T, ms []types.Middleware[T], methods 
 		return err
 	}
 
-	n, err := tree.getNode(pattern)
+	if len(methods) == 0 {
+		methods = AnyMethods
+	}
+
+	segs, err := tree.interceptors.Split(pattern) // 语法错误优先于请求方法的错误
+	if err != nil {
+		return err
+	}
+
+	// getNode 会拆分现有的节点，所以请求方法需要在此之前验证，保证被拒绝的调用不会改变路由树。
+	var handlers map[string]T
+	if exists := tree.Find(pattern); exists != nil {
+		handlers = exists.handlers
+	}
+	if err := checkMethods(tree.hasTrace, handlers, methods); err != nil {
+		return err
+	}
+
+	n, err := tree.node.getNode(segs)
 	if err != nil {
 		return err
 	}
 
 	if n.handlers == nil {
 		n.handlers = make(map[string]T, handlersSize)
-	}
-
-	if len(methods) == 0 {
-		methods = AnyMethods
 	}
 	return n.addMethods(h, pattern, ms, methods...)
 }
